@@ -18,6 +18,9 @@ pub struct Case {
     pub req_v10: bool,
     pub head: RespHead,
     pub tail: Vec<u8>,
+    /// the head is preceded by an interim 100 that the flow skips (request sent with Expect: 100-continue): None, or
+    /// Some((bytes of the 100, length of the prefix of it offered first, whether the head then comes in one piece))
+    pub late_100: Option<(Vec<u8>, usize, bool)>,
 }
 
 pub fn case_json(c: &Case, wire: &[u8]) -> Value {
@@ -29,6 +32,7 @@ pub fn case_json(c: &Case, wire: &[u8]) -> Value {
         "head": String::from_utf8_lossy(&wire[..wire.len().min(400)]),
         "head_len": wire.len(),
         "tail_len": c.tail.len(),
+        "late_100_prologue": c.late_100.as_ref().map(|(h, p, whole)| json!({"interim": String::from_utf8_lossy(h), "prefix_offered_first": p, "head_then_in_one_piece": whole})),
     })
 }
 
@@ -78,6 +82,16 @@ pub fn gen_fields(t: &mut Tape, status: u16, count: usize, obs: bool) -> Vec<Fie
         }
         if t.chance(30) {
             specials.push(Field::new("Connection", *t.pick(&["close", "keep-alive", "upgrade"])));
+        } else if t.chance(8) {
+            // the same field many times, or one field with many list members
+            let k = t.range(3, 9);
+            if t.bool() {
+                for _ in 0..k {
+                    specials.push(Field::new("Connection", "close"));
+                }
+            } else {
+                specials.push(Field::new("Connection", &vec!["close"; k].join(", ")));
+            }
         }
         if t.chance(10) {
             specials.push(Field { name: b"X-Empty".to_vec(), value: vec![], ows_l: gen_ows(t), ows_r: vec![] });
@@ -129,7 +143,14 @@ pub fn gen_case(t: &mut Tape) -> Case {
             _ => *t.pick(b"HTP/1.0 :"),
         })
         .collect();
-    Case { method, req_v10, head, tail }
+    let late_100 = if t.chance(15) {
+        let h: &[u8] = *t.pick(&[&b"HTTP/1.1 100 Continue\r\n\r\n"[..], b"HTTP/1.0 100 Continue\r\n\r\n", b"HTTP/1.1 100 \r\n\r\n"]);
+        let p = t.below(h.len());
+        Some((h.to_vec(), p, t.bool()))
+    } else {
+        None
+    };
+    Case { method, req_v10, head, tail, late_100 }
 }
 
 /// The prefix lengths to offer for a head of `len` bytes (strict prefixes only), ascending.
@@ -219,9 +240,32 @@ pub fn exec(t: &mut Tape, st: &mut Stats) -> Result<(), String> {
         st.class("status_3xx");
     }
 
-    let mk_flow = || flow_recv(&case.method, case.req_v10, &[]);
+    // with a late-100 prologue the request carried Expect: 100-continue and the flow first sees (a prefix of, then all of) a
+    // bare 100, which it must skip; the head H then follows as for any other flow
+    let mk_flow = || -> Result<_, String> {
+        match &case.late_100 {
+            None => flow_recv(&case.method, case.req_v10, &[]),
+            Some((h, p, _)) => {
+                let mut f = flow_recv(&case.method, case.req_v10, &[("expect", "100-continue")])?;
+                match f.try_response(&h[..*p]) {
+                    Ok((0, None)) => {}
+                    other => return Err(format!("late-100 prologue: prefix {} of the interim response gave {:?}", p, other.map(|o| (o.0, o.1.is_some())))),
+                }
+                match f.try_response(h) {
+                    Ok((n, None)) if n == h.len() => {}
+                    other => return Err(format!("late-100 prologue: the interim 100 was not skipped: {:?}", other.map(|o| (o.0, o.1.is_some())))),
+                }
+                Ok(f)
+            }
+        }
+    };
     let mk_call = || call_recv(&case.method, case.req_v10);
+    if case.late_100.is_some() {
+        st.class("late_100_prologue");
+    }
 
+    let whole_first = matches!(case.late_100, Some((_, _, true)));
+    let prefixes: Vec<usize> = if whole_first { vec![] } else { prefixes };
     if !over_limit {
         let mut flow = mk_flow()?;
         let mut call = mk_call()?;
@@ -356,7 +400,8 @@ pub static DEF: PropDef = PropDef {
     id: "C05",
     rule: "random heads: response version 1.0/1.1, status 101..999 (half of them 3xx), reason in {short, none, empty, \
 200 bytes, obs-text}, 0..140 fields (1 % of small heads get a 64-100 KiB value; plain, repeated names in other case, Location, Set-Cookie, valid Content-Length / \
-Transfer-Encoding, Connection, empty values, OWS variants, obs-text), 0..64 tail bytes; for heads up to 600 bytes EVERY \
+Transfer-Encoding, Connection (also repeated 3..9 times or as one long list), empty values, OWS variants, obs-text), 0..64 tail bytes; 15 % of the flows \
+first skip a late interim 100 (offered as a prefix, then whole), after which the head comes either prefix by prefix or in one piece; for heads up to 600 bytes EVERY \
 strict prefix (else every length <= 200, every line end -2..+2, 120 sampled, the last 3) is offered in ascending order to \
 parser::try_parse_response::<128>, one Call<RecvResponse> and one Flow<RecvResponse> (GET/HEAD/POST, request 1.0/1.1): each \
 must say need-more-data with 0 consumed, no error, no response, not ready; then head+tail and head alone must yield exactly \
